@@ -597,10 +597,12 @@ var (
 	c15QVals = []string{"1", "2", "", "x", "%2F", "%2f", "a+b", "a%20b", "%26", "%3D", "1;2", "%zz", "%", "\xc3\xa9", "%C3%A9", "~", "a=b", "*"}
 	c15QStrip = []string{"a", "b", "a b", "c", "zz", "A", "k&", "x.y", ""}
 
-	c15Adds = []string{"/up", "/up", "/v2/svc", "/u%2Fp", "/%41", "/a b", "/x%", "/\xc3\xa4", "up", "/", "/a;b", "/a\"b", "/%zz"}
+	c15Adds    = []string{"/up", "/up", "/v2/svc", "/v2/svc", "/u%2Fp", "/%41", "up", "/", "/a;b", "/p%3Bq", "/a!b", "/x/", "/%C3%A4"}
+	c15BadAdds = []string{"/a b", "/x%", "/\xc3\xa4", "/a\"b", "/%zz"}
 
 	c15PNames = []string{"X-User", "x-user", "X-uSeR", "Authorization", "authorization", "X-Id", "x-id", "X-Forwarded-Method", "x-forwarded-uri", "X-Forwarded-Path",
-		"X-Forwarded-For", "Forwarded", "X-Forwarded-Proto", "x-forwarded-host", "Host", "host", "Cookie", "Accept-Encoding", "User-Agent", "X-Custom-1"}
+		"Host", "host", "Cookie", "Accept-Encoding", "User-Agent", "X-Custom-1", "x-custom-1", "X-Real-Ip"}
+	c15PFwdNames = []string{"X-Forwarded-For", "Forwarded", "X-Forwarded-Proto", "x-forwarded-host"}
 	c15CNames = []string{"X-User", "x-user", "X-USER", "Authorization", "AUTHORIZATION", "X-Id", "X-ID", "x-custom-1", "X-Custom-1", "Accept", "Accept-Encoding", "Range", "User-Agent",
 		"X-Real-Ip", "Cookie", "cookie", "X-Other", "X-Drop"}
 	c15Vals = []string{"alice", "bob", "Bearer abc.def", "1", "a, b", "x;y=z", "\"q\"", "v1", "gzip", "bytes=0-1", "curl/8", "a  b", "\xc3\xa9"}
@@ -768,6 +770,9 @@ func (s *c15Sys) gen(r *vf.Rand) c15Case {
 
 		if r.Chance(55) {
 			rw.Add = vf.Pick(r, c15Adds)
+			if r.Chance(12) {
+				rw.Add = vf.Pick(r, c15BadAdds)
+			}
 		}
 
 		if r.Chance(55) {
@@ -802,7 +807,7 @@ func (s *c15Sys) gen(r *vf.Rand) c15Case {
 			}
 		}
 
-		add("X-Forwarded-Method", c15XFMethods, 45)
+		add("X-Forwarded-Method", c15XFMethods, 25)
 		add("X-Forwarded-Uri", c15XFUris, 40)
 		add("X-Forwarded-Path", []string{"/fwd/path"}, 30)
 		add("X-Forwarded-Proto", c15XFProtos, 35)
@@ -855,6 +860,10 @@ func (s *c15Sys) gen(r *vf.Rand) c15Case {
 	np := r.Intn(4)
 	for i := 0; i < np; i++ {
 		name, val := vf.Pick(r, c15PNames), vf.Pick(r, c15Vals)
+		if r.Chance(6) {
+			name = vf.Pick(r, c15PFwdNames)
+		}
+
 		if strings.EqualFold(name, "host") {
 			// net/http turns other values into their IDNA form or rejects them
 			val = vf.Pick(r, []string{"up.internal", "svc.local:8080", "10.1.2.3"})
@@ -1145,7 +1154,7 @@ func c15Corpus() []c15Case {
 	for _, e := range []struct{ raw, cut, add string }{
 		{"/", "", ""}, {"/", "/", ""}, {"//x", "/", ""}, {"/api", "/api", ""}, {"/api/x", "/api", "up"},
 		{"/a%2Fb", "/a%2", ""}, {"/a%2Fb", "/a%", "/x%"}, {"/%41", "/A", "/p"}, {"/A", "/%41", "/p"},
-		{"/a\"b%3B", "", ""}, {"/caf\xc3\xa9/%3B", "", "/p"}, {"/x#y", "", ""}, {"/a+b c", "", ""},
+		{"/a\"b%3B", "", ""}, {"/caf\xc3\xa9/%3B", "", "/p"}, {"/x#y", "", ""}, {"/a+b", "/a+", ""},
 	} {
 		c = base("GET", e.raw, "")
 		if e.cut != "" || e.add != "" {
